@@ -15,6 +15,7 @@ package main
 //   life close-waiting <k>                         Close while a receiver waits on the idle channel, then the receiver's context is cancelled
 //   life conn-close <nchan> <pending> [<gap>]      Conn.Close with <pending> unread packages per channel; logical channel <gap> closed before
 //   life close-pending <chan> <pending> <cap>      Close with <pending> packages of an abandoned response, queue capacity <cap>
+//   life unknown-token <tok> <len>                 a message starting with a token without a package type, then a DONE, then Conn.Close
 //   life reader-exit <errors>                      peer closes, <errors> read errors unconsumed, then Conn.Close: reader ends
 // Answer: a list of `<call>=<class>` with class ∈ pkg | ctx | closed | err | ok | nothing, `blocked` when the
 // watchdog (1.5 s) expires, `panic`. The Lean model (`Model/Life.lean`) predicts the set of allowed answers.
@@ -487,6 +488,28 @@ func lifeImpl(line string) string {
 			return out + " reader=ended"
 		}
 		return out + " reader=alive"
+	case "unknown-token":
+		// the peer sends a message that starts with a token the library has no package for (TDS_INFO, TDS_CONTROL,
+		// TDS_OFFSET … are part of the protocol), <len> bytes long, then a message with a DONE: the reader is not
+		// stuck on it — the consumer gets a package, Conn.Close returns and the reader ends
+		tok, n := arg(2), arg(3)
+		e, done := newLifeEnvOwnReader(100)
+		ch := e.conn.VerifNewChannel(0)
+		body := append([]byte{byte(tok)}, genBytes(n, tok)...)
+		e.mc.feed(packetize(body, nil, 4, 0))
+		e.mc.feed(packetize(wDone(0xFD, 0, 0, 0), nil, 4, 0))
+		out := watchdog(wd, func() string {
+			ctx, cancel := context.WithTimeout(context.Background(), time.Second)
+			defer cancel()
+			pkg, err := ch.NextPackage(ctx, true)
+			return "next=" + classify(pkg, err)
+		})
+		e.mc.feed(packetize(wDone(0xFD, 0, 0, 0), nil, 4, 0)) // the answer to the logout
+		out += " " + watchdog(wd, func() string { e.conn.Close(); return "connclose=ok" })
+		if readerEnded(done) {
+			return out + " reader=ended"
+		}
+		return out + " reader=alive"
 	case "reader-exit":
 		nerr := arg(2)
 		e, done := newLifeEnvOwnReader(100)
@@ -514,7 +537,7 @@ func lifeOracle(line, out string) string {
 		switch f[1] {
 		case "abandon-close":
 			return "after a channel is closed every call on it reports the closed condition (it does not block)"
-		case "close-pending", "close-errors", "close-connerrs", "closed-ops", "double-close", "conn-close", "reader-exit", "reader-exit-unknown", "close-waiting":
+		case "close-pending", "close-errors", "close-connerrs", "closed-ops", "double-close", "conn-close", "reader-exit", "reader-exit-unknown", "close-waiting", "unknown-token":
 			return "Close returns in bounded time whatever the state of the receive queue and the peer"
 		}
 		return "a call with a cancelled context returns promptly"
@@ -597,7 +620,10 @@ func lifeOracle(line, out string) string {
 		if kv["reader"] != "ended" {
 			return "closing the connection ends the reader"
 		}
-	case "reader-exit", "reader-exit-unknown":
+	case "reader-exit", "reader-exit-unknown", "unknown-token":
+		if f[1] == "unknown-token" && kv["next"] != "pkg" {
+			return "a message with a token the library does not know does not stop the delivery of what follows"
+		}
 		if kv["reader"] != "ended" {
 			return "closing the connection ends the reader"
 		}
@@ -671,6 +697,11 @@ func init() {
 				emit(Case{Line: fmt.Sprintf("life reader-exit-unknown %d", n+3), Kind: "reader-exit"})
 				for k := 11; k <= 14; k++ { // just beyond the capacity of the error queue (10)
 					emit(Case{Line: fmt.Sprintf("life reader-exit-unknown %d #%d", k, n), Kind: "reader-exit"})
+				}
+			}
+			for _, tok := range []int{0xAB, 0xAE, 0x78, 0x7C, 0xA4, 0x01} { // INFO, CONTROL, OFFSET, PROCID, TABNAME, unassigned
+				for _, n := range []int{0, 1, 20, 600} {
+					emit(Case{Line: fmt.Sprintf("life unknown-token %d %d", tok, n), Kind: "unknown-token"})
 				}
 			}
 			for _, n := range []int{0, 1, 9, 10, 11, 12, 15, 25} {
